@@ -125,7 +125,11 @@ def _body_hier(kind, custom_kws):
                 raise NotImplementedError
         seqs = [sym.sym_str(f"s{i}", 1) for i in range(3)]
         kw = {}
-        if custom_kws:
+        if custom_kws == "partial":
+            # option dictionaries that leave SciPy's own defaults in force (no criterion, no optimal_ordering): passed through as they are
+            kw["linkage_kws"] = dict(method="single")
+            kw["cluster_kws"] = dict(t=sym.sym_int("t", 0, 9))
+        elif custom_kws:
             kw["linkage_kws"] = dict(method="single", foo=sym.sym_int("foo", 0, 9))
             kw["cluster_kws"] = dict(t=sym.sym_int("t", 0, 9), criterion="maxclust")
         lk_before = {k: dict(v) for k, v in kw.items()}
@@ -169,7 +173,7 @@ def _body_hier(kind, custom_kws):
         for k, v in kw.items():      # caller's option dictionaries untouched
             if set(v) != set(lk_before[k]) or any(v[x] is not lk_before[k][x] for x in v):
                 return False, f"{k} was modified"
-        return ok, f"linkage={linkage!r} cluster={cluster!r}"
+        return ok, (lambda: f"linkage options {_realize(getattr(linkage, 'kwargs', None))} fcluster options {_realize(getattr(cluster, 'kwargs', None))}, expected {_realize(exp_l)} and {_realize(exp_c)}")
     return body
 
 
@@ -181,7 +185,8 @@ def _replay_hier(kind, custom_kws):
         from pyrepseq import distance
         from pyrepseq.metric import Levenshtein
         seqs = ["CAS", "CAT", "GGG", "GGC"]
-        kw = dict(linkage_kws=dict(method="single"), cluster_kws=dict(t=2, criterion="maxclust")) if custom_kws else {}
+        kw = (dict(linkage_kws=dict(method="single"), cluster_kws=dict(t=2)) if custom_kws == "partial" else
+              dict(linkage_kws=dict(method="single"), cluster_kws=dict(t=2, criterion="maxclust")) if custom_kws else {})
         data = seqs if kind in ("metric", "list") else (pd.DataFrame({"CDR3B": seqs}) if kind == "beta" else
                                                        pd.DataFrame({"CDR3A": seqs, "CDR3B": seqs}) if kind == "paired" else (seqs, seqs))
         linkage, cluster = distance.hierarchical_clustering(data, **kw)
@@ -204,7 +209,9 @@ def conditions(tier):
                              _replay_cc(n, ne, arr, lk), budget=400 if not T else 3000, models=M,
                              bounds=f"{ne} symbolic edges over {n} nodes ({'2-D array' if arr else 'list of tuples'}), {lk} labels"))
     for kind in ("metric", "list", "beta", "paired", "tuple"):
-        for ck in (False, True):
-            out.append(Condition(f"C15/hierarchical/{kind}/" + ("custom_kws" if ck else "defaults"), _body_hier(kind, ck), _replay_hier(kind, ck),
+        for ck in (False, True, "partial"):
+            if ck == "partial" and kind not in ("metric", "list", "beta"):
+                continue
+            out.append(Condition(f"C15/hierarchical/{kind}/" + ("partial_kws" if ck == "partial" else "custom_kws" if ck else "defaults"), _body_hier(kind, ck), _replay_hier(kind, ck),
                                  budget=120, models=M, bounds=f"hierarchical_clustering wiring, input kind {kind}"))
     return out
